@@ -11,7 +11,7 @@ PGAMMAS = [0.3, 0.5, 0.7, 0.8]
 
 @st.composite
 def pomdp_specs(draw, min_states=2, max_states=4, max_actions=3, max_obs=3, revealing=False,
-                gammas=None, schemes=("int", "str"), absorbing_kinds=("n", "n", "n", "n", "abs", "imp"),
+                gammas=None, schemes=("int", "str", "int_gap"), absorbing_kinds=("n", "n", "n", "n", "abs", "imp"),
                 flavour="discounted", reward_lo=-3, reward_hi=3, zero_obs=True, extreme=False, uniform_actions=True):
     spec = draw(mdp_specs(flavour, min_states=min_states, max_states=max_states, max_actions=max_actions,
                           schemes=schemes, allow_explicit=False, uniform_actions=uniform_actions,
@@ -43,10 +43,10 @@ def pomdp_specs(draw, min_states=2, max_states=4, max_actions=3, max_obs=3, reve
         if len(outs) > 1 and not spec["absorbing"][s0]:
             outs[0][1] = max(outs[0][1], 1) * 10 ** draw(st.sampled_from([6, 9]))
         spec["extreme"] = True
-    oscheme = draw(st.sampled_from(["int", "str"]))
+    oscheme = draw(st.sampled_from(["int", "str", "int_gap"]))
     spec["k"] = k
     spec["obs"] = obs
-    spec["olabels"] = [enc(o if oscheme == "int" else f"o{o}") for o in range(k)]
+    spec["olabels"] = [enc(o if oscheme == "int" else (5 * o - 2 if oscheme == "int_gap" else f"o{o}")) for o in range(k)]
     return spec
 
 
